@@ -936,3 +936,118 @@ def const_texts(body, t):
                 else:
                     out.append(x)
     return out
+
+
+_INT_BITS = {'u8': 8, 'i8': 8, 'u16': 16, 'i16': 16, 'u32': 32, 'i32': 32, 'u64': 64, 'i64': 64, 'usize': 64, 'isize': 64, 'u128': 128, 'i128': 128}
+
+
+def narrowing_casts(o):
+    """integer `as` casts in an origin that can drop bits (target narrower than source)"""
+    out = []
+    for fl in o.flags:
+        if fl.startswith('cast:IntToInt:'):
+            a, b = fl[len('cast:IntToInt:'):].split('->')
+            if _INT_BITS.get(b, 0) < _INT_BITS.get(a, 999):
+                out.append('%s as %s' % (a, b))
+    return sorted(out)
+
+
+def compares_whole_arrays(body, t, n):
+    """a PartialEq::eq/ne call compares two whole [u8; n] values: both argument types are (references to) the array,
+    or, if they are slices, no index / range projection other than the full range lies on their origin"""
+    for i, ty in enumerate(t.get('arg_tys', [])[:2]):
+        if '[u8; %d]' % n in ty:
+            continue
+        o = origin(body, t['args'][i])
+        if 'index' in o.flags or 'subslice' in o.flags:
+            partial = [a for a in o.atoms if a[0] == 'agg' and 'ops::range::Range' in str(a[1]) and not str(a[1]).endswith('RangeFull')]
+            if partial or not any(a[0] == 'agg' and str(a[1]).endswith('RangeFull') for a in o.atoms):
+                return False
+        else:
+            return False
+    return True
+
+
+_POSITIONAL = ('iter::traits::iterator::Iterator::take', 'iter::traits::iterator::Iterator::skip', 'iter::traits::iterator::Iterator::step_by',
+               'iter::traits::iterator::Iterator::nth', 'iter::traits::iterator::Iterator::last',
+               'slice::<impl [T]>::first', 'slice::<impl [T]>::last', 'slice::<impl [T]>::split_at', 'slice::<impl [T]>::split_first',
+               'slice::<impl [T]>::split_last', 'slice::<impl [T]>::first_mut', 'slice::<impl [T]>::last_mut', 'slice::<impl [T]>::chunks',
+               'slice::<impl [T]>::windows', 'vec::Vec::<T, A>::truncate', 'vec::Vec::<T, A>::split_off')
+
+
+def positional_truncations(body, with_closures=True):
+    """calls in a traversal that select elements *by position* (take / skip / nth / first / sub-range indexing):
+    a traversal that must visit every child has none.  Content-based adaptors (filter, take_while) are not listed."""
+    out = []
+    bodies = [body]
+    if with_closures:
+        bodies += [c for c in body.facts.body_list if c.id.startswith(body.id + '::{closure#')]
+    for b in bodies:
+        for bb, t in b.calls():
+            nm = t.get('callee') or cname(t)
+            full = cname(t)
+            if any(nm.endswith(p) or full.endswith(p) or strip_generics(full).endswith(strip_generics(p)) for p in _POSITIONAL):
+                out.append((b, bb, strip_generics(full).split('::')[-1]))
+                continue
+            if nm.endswith(('ops::index::Index::index', 'ops::index::IndexMut::index_mut')) or '::get' in nm[-12:]:
+                tys = t.get('arg_tys', [])
+                if len(tys) > 1 and 'ops::range::Range' in tys[1] and 'RangeFull' not in tys[1]:
+                    out.append((b, bb, 'index by ' + tys[1].split('::')[-1]))
+    return out
+
+
+def fmt_template_literals(body, op):
+    """decode the byte template handed to core::fmt::Arguments::new on this toolchain: returns (literal text, has_spec)
+    - a byte < 0x80 is the length of a literal piece that follows, 0xc0 is a plain `{}` placeholder, any other byte
+    >= 0x80 a placeholder with a format spec, 0x00 ends the template.  None if the operand is not a constant template."""
+    o = origin(body, op)
+    hexs = [a[1][6:] for a in o.atoms if a[0] == 'const' and isinstance(a[1], str) and a[1].startswith('bytes ')]
+    if len(hexs) != 1 or len(o.atoms) != 1:
+        return None
+    try:
+        raw = bytes.fromhex(hexs[0])
+    except ValueError:
+        return None
+    i, lit, spec = 0, '', False
+    while i < len(raw):
+        b = raw[i]
+        if b == 0:
+            break
+        if b < 0x80:
+            lit += raw[i + 1:i + 1 + b].decode('latin-1')
+            i += 1 + b
+        elif b == 0xc0:
+            i += 1
+        else:
+            spec = True
+            break
+    return lit, spec
+
+
+def const_folded_reachable(body):
+    """blocks reachable from the entry when every switch whose scrutinee is a compile-time constant takes only the
+    matching edge (`if cond && false { .. }` makes the body unreachable)"""
+    seen = set()
+    st = [0]
+    while st:
+        bb = st.pop()
+        if bb in seen:
+            continue
+        seen.add(bb)
+        t = body.term(bb)
+        nxt = None
+        if t['k'] == 'switch':
+            o = origin(body, t['op'])
+            if len(o.atoms) == 1 and not o.flags - {'deref'}:
+                a = next(iter(o.atoms))
+                cv = {'true': 1, 'false': 0}.get(a[1], a[1]) if a[0] == 'const' else None
+                if isinstance(cv, (bool, int)):
+                    v = int(cv)
+                    tg = [x['bb'] for x in t['targets'] if x['v'] == v]
+                    nxt = tg[:1] if tg else [t['otherwise']]
+        if nxt is None:
+            nxt = [s for s in body.succs(bb)]
+        for s in nxt:
+            if s not in seen:
+                st.append(s)
+    return seen
